@@ -340,9 +340,77 @@ var _ = constant.MakeBool
 // steps parses a statement list into comparison steps.
 // lxDesugar rewrites a tagless switch whose every case ends in a return into
 // the equivalent chain of ifs (the default clause becomes the tail).
+// lxThreeWayIf rewrites
+//	if c := cmp.Compare(X, Y); c != 0 { return c < 0 }
+// (also strings.Compare / bytes.Compare, and c > 0 for "more first") as the
+// pair of strict comparisons it abbreviates.
+func lxThreeWayIf(st *ast.IfStmt) []ast.Stmt {
+	if st.Init == nil || st.Else != nil || len(st.Body.List) != 1 {
+		return nil
+	}
+	as, ok := st.Init.(*ast.AssignStmt)
+	if !ok || as.Tok != token.DEFINE || len(as.Lhs) != 1 || len(as.Rhs) != 1 {
+		return nil
+	}
+	cv, ok := as.Lhs[0].(*ast.Ident)
+	if !ok {
+		return nil
+	}
+	call, ok := as.Rhs[0].(*ast.CallExpr)
+	if !ok || len(call.Args) != 2 {
+		return nil
+	}
+	sel, ok := call.Fun.(*ast.SelectorExpr)
+	if !ok || sel.Sel.Name != "Compare" {
+		return nil
+	}
+	if id, ok := sel.X.(*ast.Ident); !ok || (id.Name != "cmp" && id.Name != "strings" && id.Name != "bytes") {
+		return nil
+	}
+	isC := func(e ast.Expr) bool { id, ok := e.(*ast.Ident); return ok && id.Name == cv.Name }
+	isZero := func(e ast.Expr) bool { l, ok := e.(*ast.BasicLit); return ok && l.Value == "0" }
+	ne, ok := st.Cond.(*ast.BinaryExpr)
+	if !ok || ne.Op != token.NEQ || !((isC(ne.X) && isZero(ne.Y)) || (isZero(ne.X) && isC(ne.Y))) {
+		return nil
+	}
+	ret, ok := st.Body.List[0].(*ast.ReturnStmt)
+	if !ok || len(ret.Results) != 1 {
+		return nil
+	}
+	rb, ok := ret.Results[0].(*ast.BinaryExpr)
+	if !ok {
+		return nil
+	}
+	var less bool // true: X < Y gives true
+	switch {
+	case rb.Op == token.LSS && isC(rb.X) && isZero(rb.Y), rb.Op == token.GTR && isZero(rb.X) && isC(rb.Y):
+		less = true
+	case rb.Op == token.GTR && isC(rb.X) && isZero(rb.Y), rb.Op == token.LSS && isZero(rb.X) && isC(rb.Y):
+		less = false
+	default:
+		return nil
+	}
+	x, y := call.Args[0], call.Args[1]
+	first, second := token.LSS, token.GTR
+	if !less {
+		first, second = token.GTR, token.LSS
+	}
+	mk := func(op token.Token, v string) ast.Stmt {
+		return &ast.IfStmt{If: st.If, Cond: &ast.BinaryExpr{X: x, Op: op, Y: y, OpPos: call.Pos()},
+			Body: &ast.BlockStmt{Lbrace: st.Body.Lbrace, List: []ast.Stmt{&ast.ReturnStmt{Return: ret.Return, Results: []ast.Expr{&ast.Ident{Name: v, NamePos: ret.Return}}}}, Rbrace: st.Body.Rbrace}}
+	}
+	return []ast.Stmt{mk(first, "true"), mk(second, "false")}
+}
+
 func lxDesugar(list []ast.Stmt) []ast.Stmt {
 	var out []ast.Stmt
 	for idx, s := range list {
+		if ifs, ok := s.(*ast.IfStmt); ok {
+			if two := lxThreeWayIf(ifs); two != nil {
+				out = append(out, two...)
+				continue
+			}
+		}
 		sw, ok := s.(*ast.SwitchStmt)
 		if !ok || sw.Tag != nil || sw.Init != nil {
 			out = append(out, s)
@@ -792,7 +860,33 @@ func (e *lxEnv) analyse(body *ast.BlockStmt) *lxResult {
 	}
 	res.preambleLen = i
 	if !e.steps(list[i:], "", res) {
-		return res
+		// "if C { return true }; return false" at the very end is "return C"
+		// (the mirror image of the last step, which would return false as
+		// well, left out as redundant)
+		tail := lxDesugar(list[i:])
+		retry := false
+		if n := len(tail); n >= 2 {
+			ifs, ok1 := tail[n-2].(*ast.IfStmt)
+			ret, ok2 := tail[n-1].(*ast.ReturnStmt)
+			if ok1 && ok2 && ifs.Init == nil && ifs.Else == nil && len(ifs.Body.List) == 1 && len(ret.Results) == 1 {
+				if r1, ok := ifs.Body.List[0].(*ast.ReturnStmt); ok && len(r1.Results) == 1 {
+					t, okT := r1.Results[0].(*ast.Ident)
+					f, okF := ret.Results[0].(*ast.Ident)
+					if okT && okF && t.Name == "true" && f.Name == "false" {
+						tail = append(append([]ast.Stmt{}, tail[:n-2]...), &ast.ReturnStmt{Return: ret.Return, Results: []ast.Expr{ifs.Cond}})
+						retry = true
+					}
+				}
+			}
+		}
+		if !retry {
+			return res
+		}
+		res2 := &lxResult{preambleLen: i}
+		if !e.steps(tail, "", res2) {
+			return res // the first diagnosis stands
+		}
+		*res = *res2
 	}
 	if len(res.keys) == 0 {
 		res.why = "no comparison step"
@@ -1201,6 +1295,49 @@ func lxEnum(c *Ctx, a *flAgg) {
 		case *ssa.UnOp:
 			if fa, ok := v.X.(*ssa.FieldAddr); ok && v.Op == token.MUL && isLoc(v.Type()) && addrLast(fa) == "Location" {
 				return "copy", true
+			}
+			// a field of a local copy of a table element: d := table[i]; d.f
+			if fa, ok := v.X.(*ssa.FieldAddr); ok && v.Op == token.MUL {
+				if al, ok := fa.X.(*ssa.Alloc); ok {
+					var src ssa.Value
+					whole := 0
+					for _, r := range *al.Referrers() {
+						switch r := r.(type) {
+						case *ssa.Store:
+							if r.Addr == ssa.Value(al) {
+								whole++
+								src = r.Val
+							}
+						case *ssa.FieldAddr:
+							for _, r2 := range *r.Referrers() {
+								if st, isSt := r2.(*ssa.Store); isSt && st.Addr == ssa.Value(r) {
+									whole = 99 // a field is overwritten: not followed
+								}
+							}
+						case *ssa.DebugRef:
+						default:
+							whole = 99
+						}
+					}
+					if whole == 1 {
+						var table ssa.Value
+						switch e := src.(type) {
+						case *ssa.Index: // element of an array value loaded as a whole
+							if ld, ok := e.X.(*ssa.UnOp); ok && ld.Op == token.MUL {
+								table = ld.X
+							}
+						case *ssa.UnOp: // *(&table[i])
+							if ia, ok := e.X.(*ssa.IndexAddr); ok && e.Op == token.MUL {
+								table = ia.X
+							}
+						}
+						if table != nil {
+							if what, ok := tableField(table, fa.Field, func(x ssa.Value) bool { _, ok := okVal(x, depth+1, seen); return ok }); ok {
+								return what, true
+							}
+						}
+					}
+				}
 			}
 		case *ssa.Field:
 			// a field of an element of a local table (array/slice literal) all of
